@@ -51,8 +51,9 @@ def _is_call(e, names):
 
 
 class SeqEval:
-    def __init__(self, fnode):
+    def __init__(self, fnode, module_funcs=None):
         self.fnode = fnode
+        self.module_funcs = module_funcs or {}
         self.is_gen = any(isinstance(n, (ast.Yield, ast.YieldFrom)) for n in self._own_nodes(fnode))
         self.fresh = 0
 
@@ -108,6 +109,8 @@ class SeqEval:
         if isinstance(e, ast.Call) and isinstance(e.func, ast.Name) and not e.keywords and depth < 3 \
                 and not any(isinstance(a, ast.Starred) for a in e.args):
             nested = [n for n in ast.walk(self.fnode) if isinstance(n, ast.FunctionDef) and n is not self.fnode and n.name == e.func.id]
+            if not nested and e.func.id in self.module_funcs and not self.module_funcs[e.func.id].decorator_list:
+                nested = [self.module_funcs[e.func.id]]     # a module-level helper that builds the element
             if len(nested) == 1 and len(nested[0].args.args) == len(e.args) and not nested[0].args.vararg and not nested[0].args.kwarg:
                 h = nested[0]
                 ren = dict(zip([a.arg for a in h.args.args], [self.subst(a, env) for a in e.args]))
@@ -483,8 +486,8 @@ def canon_seq(t):
     return walk(t, {}, 0)
 
 
-def produced(fnode):
-    return canon_seq(SeqEval(fnode).produce())
+def produced(fnode, module_funcs=None):
+    return canon_seq(SeqEval(fnode, module_funcs).produce())
 
 
 def produced_by_source(src):
